@@ -2,9 +2,9 @@
 from .common import *
 ID = "C10"
 _M = "tinyflux.measurement.Measurement."
-FUNCTIONS = [_M + f for f in ("name", "count", "contains", "get", "search", "remove", "remove_all", "update", "update_all", "insert", "insert_multiple", "get_tag_keys", "get_field_keys", "get_field_values", "get_timestamps")] + \
-    [TF + f for f in ("count", "contains", "remove", "drop_measurement", "insert", "insert_multiple", "update", "update_all", "get_tag_keys", "get_field_keys", "get_field_values", "get_timestamps")]
+FUNCTIONS = [_M + f for f in ("name", "count", "contains", "get", "search", "remove", "remove_all", "update", "update_all", "insert", "insert_multiple", "get_tag_keys", "get_tag_values", "get_field_keys", "get_field_values", "get_timestamps", "__iter__", "__len__", "all")] + \
+    [TF + f for f in ("count", "contains", "remove", "drop_measurement", "insert", "insert_multiple", "update", "update_all", "get_tag_keys", "get_tag_values", "get_field_keys", "get_field_values", "get_timestamps")]
 ASSUMED = []
 STANDIN = "standins/dbdiff.py"
-TRUSTED = TRUSTED_CORE + [STORAGE_ASSUMED, QUERY_ASSUMED, "callee contracts of get/search are proved under C01; Measurement.select, get_tag_values, __len__/__iter__/all are NOT under contract (bounded stand-in only)"]
+TRUSTED = TRUSTED_CORE + [STORAGE_ASSUMED, QUERY_ASSUMED, "callee contracts of get/search are proved under C01; Measurement.select is NOT under contract (bounded stand-in only); __iter__/__len__/all compare the measurement with the name directly (no truthiness test), so they are exact also for the name ''"]
 ASSUMPTIONS = [A_ALIAS, "the restriction is `if measurement and ...` in the code: the name '' is treated like None (KF-19, recorded finding)"]
